@@ -310,17 +310,18 @@ def fr(x):
 
 def optimal_lattice(task):
     cls, size, sel, p, tier, seed, outdir = task
-    return [optimal_task((cls, size, direction, dn, ax, p, tier, seed, outdir)) for (direction, dn, ax) in sel]
+    shared = build_code(cls, size, None, None)      # ONE code object for all the noise settings of the lattice (same label, other axis)
+    return [optimal_task((cls, size, direction, dn, ax, p, tier, seed, outdir), shared) for (direction, dn, ax) in sel]
 
 
-def optimal_task(task):
+def optimal_task(task, shared_code=None):
     from fractions import Fraction
     cls, size, direction, dn, ax, p, tier, seed, outdir = task
     from panqec.error_models import PauliErrorModel
     from panqec.decoders import MatchingDecoder
     rec = {'cls': cls, 'size': list(size), 'direction': list(direction), 'deformation': dn, 'axis': ax, 'p': p, 'cases': []}
     try:
-        code = build_code(cls, size, None, None)
+        code = shared_code if shared_code is not None else build_code(cls, size, None, None)
         kw = {'deformation_axis': ax} if ax else {}
         em = PauliErrorModel(*direction, deformation_name=dn, deformation_kwargs=kw)
         # two decoders built one after the other from the SAME noise-model object, code object and rate (what a batch run
